@@ -263,8 +263,8 @@ example : specStatus [.setStatus 404, .setStatus 0, .setStatus 503, .write [] 0 
 
 -- a request: handler 0 sets 201 and aborts with a message before Next (handler 1 is cut off),
 -- then writes after Next; WriteBytes fails -> panic -> OnPanic sets 500 (too late: 201 is out)
-def demoCfg : Cfg := ⟨3, .get, true, false, none⟩
-def demoProg : List (Site × Act) :=
+def c08DemoCfg : Cfg := ⟨3, .get, true, false, none⟩
+def c08DemoProg : List (Site × Act) :=
   [(.chain 0, .op (.setStatus 201)),
    (.chain 0, .abort 403 (some ([110, 111], 3, false))),
    (.chain 1, .op (.setStatus 202)),
@@ -272,16 +272,16 @@ def demoProg : List (Site × Act) :=
    (.chain 4, .op .flush),
    (.onPanic, .op (.setStatus 500))]
 
-example : (serve demoCfg demoProg).escaped = false := by decide
-example : (serve demoCfg demoProg).finish.log =
+example : (serve c08DemoCfg c08DemoProg).escaped = false := by decide
+example : (serve c08DemoCfg c08DemoProg).finish.log =
     [.wh 403, .w [110, 111, 10] 3 false, .w [97, 98] 1 true] := by decide
-example : (serve demoCfg demoProg).finish.length = 4 := by decide
+example : (serve c08DemoCfg c08DemoProg).finish.length = 4 := by decide
 -- the same program without an OnPanic handler: the panic escapes, still one WriteHeader
-example : (serve { demoCfg with hasOnPanic := false } demoProg).escaped = true := by decide
+example : (serve { c08DemoCfg with hasOnPanic := false } c08DemoProg).escaped = true := by decide
 -- a panic before anything was written and no OnPanic: nothing reaches the underlying writer
-example : (serve { demoCfg with hasOnPanic := false } [(.chain 0, .panic)]).finish.log = [] := by decide
+example : (serve { c08DemoCfg with hasOnPanic := false } [(.chain 0, .panic)]).finish.log = [] := by decide
 -- hypotheses of C08_onpanic_commits are satisfiable with a panicking program
-example : demoCfg.hasOnPanic = true ∧
-    ∀ sa ∈ demoProg, sa.1 = Site.onPanic → actPanics sa.2 = false := by decide
+example : c08DemoCfg.hasOnPanic = true ∧
+    ∀ sa ∈ c08DemoProg, sa.1 = Site.onPanic → actPanics sa.2 = false := by decide
 
 end Rux
